@@ -1,0 +1,15 @@
+// Copyright The gittuf Authors
+// SPDX-License-Identifier: Apache-2.0
+
+//go:build verif
+
+package luasandbox
+
+import lua "github.com/yuin/gopher-lua"
+
+// VerifLState exposes the sandbox's Lua state to verification harnesses built
+// with the verif tag, so that everything reachable from the script's globals
+// can be inspected from Go.
+func (l *LuaEnvironment) VerifLState() *lua.LState {
+	return l.lState
+}
